@@ -309,7 +309,7 @@ func init() {
 		df, dp int
 		props  []string
 		walk   int
-	}{{"quick", 8, 6, []string{"C04"}, 40_000}, {"thorough", 11, 8, []string{"C04"}, 700_000}} {
+	}{{"quick", 8, 7, []string{"C04"}, 40_000}, {"thorough", 11, 8, []string{"C04"}, 700_000}} {
 		tier := tier
 		Register(&Scenario{
 			Name: "seq-queue-fifo/" + tier.name, Props: tier.props, Seq: true, Only: tier.name,
